@@ -128,6 +128,13 @@ class Non(V):
     pass
 
 
+class Na(V):
+    """A natural number known only symbolically (a length, a node count): Coq term of type nat."""
+
+    def __init__(self, t):
+        self.t = t
+
+
 class Ss(V):
     """A static set of string constants (column-name bookkeeping)."""
 
@@ -336,6 +343,9 @@ class Tr:
             elif k == "list":
                 env[nm] = DL(mangle(nm))
                 params.append((mangle(nm), "list R"))
+            elif k == "nat":
+                env[nm] = Na(mangle(nm))
+                params.append((mangle(nm), "nat"))
             elif k == "arr":
                 env[nm] = El("x_", "dt")
                 self.arr_param = mangle(nm)
@@ -648,7 +658,7 @@ class Tr:
         if isinstance(val, El):
             env[nm] = El(cn, val.dt, val.mask)
             return f"let {cn} := {val.t} in\n"
-        if isinstance(val, (St, Non, Di, Tu, Fn, Bo, Em, Dt, Ss, Ip)):
+        if isinstance(val, (St, Non, Di, Tu, Fn, Bo, Em, Dt, Ss, Ip, Na)):
             env[nm] = val
             return ""
         fail(node, f"bind of kind {type(val).__name__}")
@@ -1000,6 +1010,9 @@ class Tr:
                 ast.copy_location(fake, node)
                 out.append(self.ev_Compare(fake, {"__l": it, "__r": r}))
             return SV(out)
+        if isinstance(l, Na) and isinstance(r, Na) and isinstance(op, (ast.Eq, ast.NotEq)):
+            t_ = f"(Nat.eqb {l.t} {r.t})"
+            return Bo("bool", t_ if isinstance(op, ast.Eq) else f"(negb {t_})")
         if isinstance(l, Ss) and isinstance(r, Ss) and isinstance(op, (ast.Eq, ast.NotEq)):
             return Bo((l.items == r.items) if isinstance(op, ast.Eq) else (l.items != r.items))
         if isinstance(l, St) and isinstance(r, St):
@@ -1479,6 +1492,8 @@ def _len(tr, node, args, kwargs):
         r = Sc(str(len(args[0].items)))
         r.pyconst = len(args[0].items)
         return r
+    if len(args) == 1 and isinstance(args[0], DL):
+        return Na(f"(length {args[0].t})")
     fail(node, "len() of a value of unknown length")
 
 
@@ -1547,6 +1562,12 @@ def _full_like(tr, node, args, kwargs):
     if isinstance(a, DL) and isinstance(v, Sc):
         return DL(f"(map (fun _ => {v.t}) {a.t})")
     fail(node, "np.full_like kinds")
+
+
+def _full(tr, node, args, kwargs):
+    if len(args) == 2 and not kwargs and isinstance(args[0], Na) and isinstance(args[1], Sc):
+        return DL(f"(repeat {args[1].t} {args[0].t})")
+    fail(node, "np.full form (length, scalar)")
 
 
 def _cumtrapz(tr, node, args, kwargs):
@@ -1674,7 +1695,7 @@ BUILTINS = {
     "float": _float, "len": _len, "np.clip": _clip, "np.minimum": _minimum, "np.arange": _arange,
     "np.ones_like": lambda tr, node, args, kwargs: (DL(f"(map (fun _ => 1) {args[0].t})") if len(args) == 1 and not kwargs and isinstance(args[0], DL)
                                                      else Sc("1") if len(args) == 1 and not kwargs and isinstance(args[0], Sc) else fail(node, "np.ones_like form")),
-    "np.full_like": _full_like, "np.empty_like": _empty_like, "np.result_type": _result_type,
+    "np.full": _full, "np.full_like": _full_like, "np.empty_like": _empty_like, "np.result_type": _result_type,
     "cumulative_trapezoid": _cumtrapz, "sp.integrate.cumulative_trapezoid": _cumtrapz,
     "integrate.cumulative_trapezoid": _cumtrapz,
     "brentq": _brentq, "quad": _quad,
